@@ -215,6 +215,38 @@ class Program:
             return ("builtin", name)
         return None
 
+    def written_globals(self):
+        """'module.name' of module-level containers that some function stores into (caches), as opposed to
+        constant tables that are only read"""
+        c = getattr(self, "_written_globals", None)
+        if c is not None:
+            return c
+        c = set()
+        for m in self.modules.values():
+            for f in m.all_funcs:
+                loc = self._locals(f)
+                for n in ast.walk(f.node):
+                    base = None
+                    if isinstance(n, (ast.Assign, ast.AugAssign)):
+                        for t in (n.targets if isinstance(n, ast.Assign) else [n.target]):
+                            b = t
+                            sub = False
+                            while isinstance(b, ast.Subscript):
+                                b, sub = b.value, True
+                            if sub and isinstance(b, ast.Name):
+                                base = b
+                    elif isinstance(n, ast.Call) and isinstance(n.func, ast.Attribute) and n.func.attr in ("setdefault", "update", "pop", "clear", "append", "extend", "add", "popitem", "insert") and isinstance(n.func.value, ast.Name):
+                        base = n.func.value
+                    elif isinstance(n, ast.Global):
+                        for nm in n.names:
+                            c.add(f"{m.name}.{nm}")
+                    if base is not None and base.id not in loc:
+                        r = self.lookup_global(m, base.id)
+                        if r and r[0] == "var":
+                            c.add(f"{r[1].name}.{r[2]}")
+        self._written_globals = c
+        return c
+
     def func(self, fq: str) -> Func:
         """'module.qualname' -> Func; AnalysisError if the anchor vanished"""
         mod, _, qn = fq.partition(".")
